@@ -340,6 +340,34 @@ def rule_g(R, ctx):
             R.ob("C18.g", f, "stores-data", bool(reps), "the new data replaces the stored data (%d site(s))" % len(reps))
 
 
+def rule_h(R, ctx):
+    Y = ctx.yrs
+    R.rule("C18.h", "R-PROV the awareness handler hands on what it received: Protocol::handle_awareness_update and its async twin pass "
+                    "the received AwarenessUpdate to Awareness::apply_update as it came — the argument is the handler's own `update` "
+                    "parameter (the closure's capture of it) and the handler makes no other call that could touch it (no removal of "
+                    "entries, no filtering). The clock-guarded merge (C18.d) needs to SEE an entry about the local client to defend the "
+                    "local state: it keeps the data and bumps the clock past the remote one; an `echo filter` in front of it leaves the "
+                    "local clock behind and every later announcement of this peer loses everywhere")
+    n = 0
+    for p, fn in sorted(Y.fns.items()):
+        if not re.search(r"sync::protocol::(Protocol|AsyncProtocol)::handle_awareness_update(::\{closure#0\})?$", p) or not fn.mir:
+            continue
+        ap = fn.calls_to("yrs::sync::awareness::Awareness::apply_update")
+        if not ap:
+            continue   # the async wrapper only boxes the closure
+        n += 1
+        v = FnView(fn)
+        others = [c for c in fn.calls() if c not in ap and not re.search(r"(Try|FromResidual)(<.*>)?>?::(branch|from_residual)$", c.name) and
+                  not re.search(r"::(poll|into_future|new_unchecked|get_context|deref|deref_mut|as_mut|as_ref)$", c.name)]
+        arg = simp_deep(v.arg(ap[0], 1, 10))
+        pure = arg[0] == "param" or (arg[0] == "field" and all(x[0] in ("field", "param", "deref", "ref") for x in walk(arg)))
+        ok = len(ap) == 1 and pure and not others
+        R.ob("C18.h", fn, "hands-on", ok, "apply_update(awareness, %s), no other call" % sshow(arg, 4) if ok else
+             "the handler calls %s besides apply_update(%s): the update is touched before the clock-guarded merge sees it" %
+             ([F.strip_generics(c.name).rsplit("::", 2)[-2:] for c in others][:3], sshow(arg, 4)), ap[0].loc())
+    R.floor("C18.h", "awareness handlers that apply the update", n, 2)
+
+
 def check(ctx, R):
     from . import wire_rules
     R.run("C18.a", rule_a, ctx)
@@ -348,6 +376,7 @@ def check(ctx, R):
     R.run("C18.d", rule_d, ctx)
     R.run("C18.e", rule_e, ctx)
     R.run("C18.g", rule_g, ctx)
+    R.run("C18.h", rule_h, ctx)
     from . import c02 as _c02
     R.run("C18.f", lambda R, c: _c02.rule_f(R, c, "C18.f"), ctx)
     return {}
